@@ -4,7 +4,7 @@ from common import *
 import pipe, gens
 from props import c03, c13
 
-RULE = ("every recorded batch of the corpus run and of the generated run, one batch for every non-empty combination of six row classes (input-balanced, rule-based, both sides unbalanced, MCS, carbon deficit, no solution), the MCS-stage reactions at thresholds {0, 0.5, 1, observed confidences and both float neighbours}, plus multi-batch runs (random batch sizes) whose merged "
+RULE = ("every recorded batch of the corpus run and of the generated run, one batch for every non-empty combination of six row classes (input-balanced, rule-based, both sides unbalanced, MCS, carbon deficit, no solution), the MCS-stage reactions at thresholds {0, 0.5, 1, observed confidences and both float neighbours}, plus multi-batch runs (random batch sizes), cached re-runs of the same rows at other thresholds over one cache directory and consecutive CLI runs in one process (their .stats files) whose merged "
         "statistics are compared with the rows; each batch is replayed through the model inside Coq (rows + all seven counters); "
         "independent oracle recomputes every relation of the property from the returned rows.  Non-trivial: a batch with at least "
         "two different outcomes among its rows; distinct = distinct batch content.")
@@ -95,6 +95,48 @@ def run(ctx):
         ctx.evaluations += 1
         ctx.count("merged", "multi_batch_runs")
         relations(ctx, ins, rows, st, {"inputs": ins, "batch_size": k})
+    # cached re-runs: the statistics of a run served from the cache must describe the rows that run returns (other threshold, same rows)
+    import tempfile, shutil, csv as _csv
+    mcsrows = [i for b in bs if len(b["rows"]) == len(b["inputs"]) for i, r in zip(b["inputs"], b["rows"]) if r["solved_by"] == "mcs-based"][:6 if ctx.quick() else 30]
+    ins = (mcsrows + cheap[:6])
+    tmpc = tempfile.mkdtemp(prefix="synrbl_c18_")
+    try:
+        # thresholds that separate the observed confidences (a threshold with MCS rows on both sides of it), and the end points
+        confs = sorted({r["confidence"] for b in bs for r in b["rows"] if r["solved_by"] == "mcs-based" and r["input_reaction"] in set(mcsrows) and r["confidence"] is not None})
+        mid = (confs[len(confs) // 2] + (confs[len(confs) // 2 - 1] if len(confs) > 1 else 0)) / 2 if confs else 0.5
+        for hist in ([0, mid, 1, 0], [1, 0, mid]) if ctx.quick() else ([0, mid, 1, 0], [1, 0, mid], [0.9, 0, 0.5], [mid, 0.3, 0.7, 0], [0.5, 0.5]):
+            cdir = tempfile.mkdtemp(prefix="c", dir=tmpc)
+            for t in hist:
+                st = {}
+                rows = Balancer(n_jobs=1, batch_size=5, confidence_threshold=t, cache=True, cache_dir=cdir).rebalance(list(ins), output_dict=True, stats=st)
+                ctx.evaluations += 1
+                ctx.count("cached", "runs")
+                ctx.nontrivial.add(json.dumps(["cached", hist, t]))
+                relations(ctx, ins, rows, st, {"inputs": ins, "threshold": t, "batch_size": 5, "cache_history": hist})
+        # the CLI: consecutive runs of the `run` sub-command in ONE process, each writing <output>.stats next to its result file
+        from synrbl.SynCmd.cmd_run import impute
+        lists = [cheap[:5], cheap[3:11] + mcsrows[:1], cheap[2:6]]
+        for k, lst in enumerate(lists):
+            src, out = os.path.join(tmpc, "in%d.csv" % k), os.path.join(tmpc, "out%d.csv" % k)
+            with open(src, "w", newline="") as f:
+                w = _csv.writer(f); w.writerow(["reaction"]); [w.writerow([x]) for x in lst]
+            try:
+                import io, contextlib
+                with contextlib.redirect_stdout(io.StringIO()):
+                    impute(src, out, "reaction", [], [0, 0.5, 0][k], n_jobs=1, batch_size=[None, 3, 2][k])
+                with open(out, newline="") as f:
+                    got = list(_csv.DictReader(f))
+                with open(out + ".stats") as f:
+                    st = json.load(f)
+            except Exception as e:
+                ctx.mismatch("CLI run raised", lst[:2], str(e), None)
+                continue
+            rows = [{"solved": g["solved"] == "True", "solved_by": g["solved_by"] or None} for g in got]
+            ctx.evaluations += 1
+            ctx.count("cli", "consecutive_runs_in_one_process")
+            relations(ctx, lst, rows, st, {"inputs": lst, "cli_run": k, "of": [len(x) for x in lists]})
+    finally:
+        shutil.rmtree(tmpc, ignore_errors=True)
     # malformed stream: lost batches / filtered rows (C05's mechanisms) and what the counters say then
     for ins, k in ((["C>>C", "C", "CC>>CC"], None), (["C>>C", "XX>>C", "CC>>CC"], None), (["C>>C", "C", "CC>>CC", "CCO>>CCO"], 2)):
         b = pipe.run_api(ins, k)
